@@ -390,7 +390,7 @@ Section Abs.
     assert (reg_get (st_reg st) k = Some it0) as Hg.
     { rewrite (sim_user _ _ HS k Huk), reg_get_mark. fold R0. rewrite Hg0. cbn [option_map]. f_equal.
       unfold mark_item. cbn [fst snd]. now rewrite Hs0, HA. }
-    destruct (set_resolved_inv R0 st k it0 gd r (sim_inv _ _ HS) (sim_keyed _ _ HS) Hg Hs0)
+    destruct (set_resolved_inv R0 st k it0 gd r Hcf (sim_inv _ _ HS) (sim_keyed _ _ HS) Hg Hs0)
       as (HI2 & HK2 & _ & (it2 & Hg2 & Hs2) & Hoth).
     assert (st_reg (set_resolved st k r) =
             reg_add (st_reg st) {| it_vis := it_vis it0; it_path := it_path it0; it_state := Resolved r; it_cat := it_cat it0 |}) as Hreg.
